@@ -141,6 +141,12 @@ eq("C14", "src/pset/macros.rs", """        if let (&None, Some($thing)) = (&$slf
             (ours, _) => $slf.$thing = ours,
         }""", "take() and restore on every arm")
 
+for P in ("C09", "C04"):
+    eq(P, "src/blind.rs", """                let gen = asset
+                    .into_asset_gen(secp)
+                    .ok_or(TxOutError::UnExpectedNullAsset)?;""",
+       "                let gen = match asset.into_asset_gen(secp) { Some(g) => g, None => return Err(TxOutError::UnExpectedNullAsset) };", "match instead of ok_or()?")
+
 only = sys.argv[1] if len(sys.argv) > 1 else None
 bad = 0
 for prop, path, old, new, why in R:
